@@ -135,7 +135,9 @@ def default_periodic_rule(ctx, rule, p):
                                             ast.unparse(v).replace(" ", "") == "(360,180)" for k, v in zip(n.keys, n.values)))]
         ctx.expect(bool(lon), rule, f"{name}[longitude]", "longitude is angular data with period 360 wrapped to (-180, 180]", f.loc())
     # forwarding
+    from .fc import normalise_mapping_loops
     fa = p.get_function(DSM + "interpolate_dataset_along_axis")
+    fa = normalise_mapping_loops(fa, fa.params[1])
     fg = p.get_function(DSM + "interpolate_dataset_grid")
     fd = p.get_function(DSM + "interpolate_dataset")
     fpnt = p.get_function(DSM + "interpolate_at_points")
